@@ -432,3 +432,61 @@ func (p *poly) rename(f func(string) string) *poly {
 	}
 	return out.norm()
 }
+
+// incrementDelta recognises the forms `x++`, `x += d`, `x = x + d`, `x = d + x` (and the
+// decrement / subtraction counterparts) and returns the canonical target and the polynomial d.
+func (c *Ctx) incrementDelta(env *lfEnv, s ast.Stmt) (target string, delta *poly, ok bool) {
+	info := env.info
+	switch x := s.(type) {
+	case *ast.IncDecStmt:
+		d := pInt(1)
+		if x.Tok == token.DEC {
+			d = pInt(-1)
+		}
+		return c.canon(info, x.X, nil), d, true
+	case *ast.AssignStmt:
+		if len(x.Lhs) != 1 || len(x.Rhs) != 1 {
+			return "", nil, false
+		}
+		t := c.canon(info, x.Lhs[0], nil)
+		switch x.Tok {
+		case token.ADD_ASSIGN, token.SUB_ASSIGN:
+			p, err := env.fold(x.Rhs[0])
+			if err != nil {
+				return "", nil, false
+			}
+			if x.Tok == token.SUB_ASSIGN {
+				p = p.neg()
+			}
+			return t, p, true
+		case token.ASSIGN:
+			// x = x + d : fold both sides with x as an atom
+			lp := pAtom(t)
+			saved := env.inits
+			env.inits = map[types.Object]ast.Expr{}
+			rp, err := env.fold(x.Rhs[0])
+			env.inits = saved
+			if err != nil {
+				return "", nil, false
+			}
+			d := rp.sub(lp)
+			for _, a := range d.atoms() {
+				if a == t {
+					return "", nil, false
+				}
+			}
+			// the right-hand side must really contain the target
+			has := false
+			for _, a := range rp.atoms() {
+				if a == t {
+					has = true
+				}
+			}
+			if !has {
+				return "", nil, false
+			}
+			return t, d, true
+		}
+	}
+	return "", nil, false
+}
